@@ -137,6 +137,11 @@ fn names() -> Vec<String> {
         "c.example.com.".into(),
         "example.org.".into(),
         "ftp.example.org.".into(),
+        // Names whose labels are the leading labels of other names in the
+        // pool (`example.` of `example.com.`, `www.example.` of
+        // `www.example.com.`).
+        "example.".into(),
+        "www.example.".into(),
         ".".into(),
         format!("{l}.{l}.{l}.{s}.example.com.", l = long_label, s = "s".repeat(49)),
         format!("x.{l}.{l}.{l}.{s}.example.com.", l = long_label, s = "s".repeat(47)),
